@@ -59,7 +59,7 @@ func main() {
 			raceLog = fmt.Sprintf("%s.%d", strings.TrimPrefix(f, "log_path="), os.Getpid())
 		}
 	}
-	const seeds = 300
+	const seeds = 600
 	selectSeen := map[int]int{}
 	deadlocks, clean := 0, 0
 	for s := uint64(1); s <= seeds; s++ {
